@@ -4,7 +4,7 @@
    blocks of consecutive actions do not overlap holds in the model because the reducer is one
    sequential thread (World.step_reducer); it is checked by the lockstep correspondence and the
    C07 monitor, not yet stated as a theorem over histories. *)
-From RS Require Import Base Pipeline PipelineProofs.
+From RS Require Import Base Channel Pipeline PipelineProofs Script World Hist WorldFoldDyn.
 
 Section C07.
 Context {State Action Eff : Type}.
@@ -33,5 +33,22 @@ Theorem C07_every_reducer_once : forall (rs : list (reducer State Action Eff)) j
 Proof. intros; split; [apply chain_calls_length|apply chain_calls_index]. Qed.
 End C07.
 
+Section C07_world.
+Context {State : Type}.
+Variable cfg : wconfig (State := State).
+(* "a reducer or middleware registered (at build time or later) before an action is dispatched is
+   never left out of that action's pipeline" (WorldFoldDyn.v, every program and schedule): the
+   lists MS / RS1 the action's write-back was computed with extend the registries as they were
+   when the reducer took the action (hence as they were when it was dispatched), in registration
+   order, and contain nothing that was not registered by the time of the write-back *)
+Theorem C07_registered_never_left_out : forall RS0 MS0 progs w h2 a s h1,
+  reachable cfg RS0 MS0 progs w -> w_hist w = h2 ++ EWrite a s :: h1 ->
+  exists MS RS1,
+    between (mws_at_deq MS0 h1) MS (mws_all MS0 h1) /\ between (reds_at_deq RS0 h1) RS1 (reds_all RS0 h1) /\
+    s = step_with cfg MS RS1 (last_written (cfg_init cfg) h1) a.
+Proof. intros RS0 MS0 progs w h2 a s h1 R E. exact (write_back_is_pipeline_step cfg RS0 MS0 progs w h2 a s h1 R E). Qed.
+End C07_world.
+
 Print Assumptions C07_phase_order_partial.
 Print Assumptions C07_every_reducer_once.
+Print Assumptions C07_registered_never_left_out.
